@@ -70,10 +70,11 @@ func (r *Record) Get(name string) string {
 
 // Resp is a response script.
 type Resp struct {
-	Status  int
-	Reason  string
-	Headers [][2]string // written verbatim, in order
-	Body    []byte
+	Status   int
+	Reason   string
+	Headers  [][2]string // written verbatim, in order
+	Trailers [][2]string // trailer fields after the last chunk (Chunked only; announce them with a Trailer header)
+	Body     []byte
 	// Framing
 	Chunked   bool  // chunked transfer-encoding, else Content-Length
 	NoLength  bool  // neither: close-delimited body
@@ -695,7 +696,11 @@ func (b *Backend) respond(c net.Conn, br *bufio.Reader, rec *Record, r *Resp) (k
 		return false
 	}
 	if r.Chunked && !noBody {
-		if _, err := c.Write([]byte("0\r\n\r\n")); err != nil {
+		end := "0\r\n"
+		for _, t := range r.Trailers {
+			end += t[0] + ": " + t[1] + "\r\n"
+		}
+		if _, err := c.Write([]byte(end + "\r\n")); err != nil {
 			rec.Outcome = "write_error_end"
 			return false
 		}
